@@ -153,4 +153,55 @@ theorem kept_outer_eq (os : List Opt) (ov : Bytes) (hs : os.Pairwise (fun a b =>
   exact hsplit
 
 
+section MvsS
+open Coap.M.Oscore
+theorem putBF_eq (k v : Nat) : putBF k v = beBytes k v := by
+  induction k generalizing v with
+  | zero => rfl
+  | succ k ih => simp [putBF, beBytes, ih]
+
+theorem putUnsigned_eq (n : Nat) : putUnsigned n = cborHead 0 n := by
+  unfold putUnsigned cborHead
+  simp only [putBF_eq]
+  repeat' split
+  all_goals simp
+
+theorem small_or : ∀ n, n < 24 → (UInt8.ofNat n ||| 0x80 = UInt8.ofNat (4 * 32 + n)) ∧ (UInt8.ofNat n ||| 0x40 = UInt8.ofNat (2 * 32 + n))
+    ∧ (UInt8.ofNat n ||| 0x60 = UInt8.ofNat (3 * 32 + n)) ∧ (UInt8.ofNat n ||| 0x20 = UInt8.ofNat (1 * 32 + n)) := by decide
+
+theorem orFirst_eq (n : Nat) : orFirst 0x80 (putUnsigned n) = cborHead 4 n ∧ orFirst 0x40 (putUnsigned n) = cborHead 2 n ∧
+    orFirst 0x60 (putUnsigned n) = cborHead 3 n ∧ orFirst 0x20 (putUnsigned n) = cborHead 1 n := by
+  unfold putUnsigned cborHead
+  simp only [putBF_eq]
+  by_cases h1 : n < 24
+  · have := small_or n h1
+    have h1' : n < 0x18 := h1
+    simp [h1, h1', orFirst, this]
+  · have h1' : ¬ n < 0x18 := h1
+    by_cases h2 : n < 256
+    · have h2' : n < 0x100 := h2
+      simp [h1, h1', h2, h2', orFirst]; decide
+    · have h2' : ¬ n < 0x100 := h2
+      by_cases h3 : n < 65536
+      · have h3' : n < 0x10000 := h3
+        simp [h1, h1', h2, h2', h3, h3', orFirst]; decide
+      · have h3' : ¬ n < 0x10000 := h3
+        by_cases h4 : n < 4294967296
+        · have h4' : n < 0x100000000 := h4
+          simp [h1, h1', h2, h2', h3, h3', h4, h4', orFirst]; decide
+        · have h4' : ¬ n < 0x100000000 := h4
+          simp [h1, h1', h2, h2', h3, h3', h4, h4', orFirst]; decide
+
+theorem putNumber_eq (v : Int) : putNumber v = cborInt v := by
+  unfold putNumber cborInt
+  by_cases h : v < 0
+  · have h' : ¬ 0 ≤ v := by omega
+    have e : (-v).toNat - 1 = (-1 - v).toNat := by omega
+    simp only [h, h', if_true, if_false, (orFirst_eq _).2.2.2, e]
+  · have h' : 0 ≤ v := by omega
+    simp only [h, h', if_true, if_false, putUnsigned_eq]
+
+
+end MvsS
+
 end Coap
